@@ -23,6 +23,12 @@ class iscan_context {
     scan_endpoint end_point_;
     bool right_to_left_;
     bool early_abort_;
+    // saved from iscan_open parameter, to position the cursor again (see get_positioning)
+    std::string start_key_;
+    scan_endpoint start_point_;
+    // true until the first entry is produced. While it is true, a concurrent modification
+    // detected by iscan_findnext makes the cursor search its first entry again.
+    bool positioning_{true};
 
 // NOLINTBEGIN(misc-non-private-member-variables-in-classes)
     // resume info
@@ -68,6 +74,10 @@ public:
     scan_endpoint get_end_point() { return end_point_; }
     [[nodiscard]] bool get_right_to_left() const { return right_to_left_; }
     [[nodiscard]] bool get_early_abort() const { return early_abort_; }
+    const std::string& get_start_key() { return start_key_; }
+    scan_endpoint get_start_point() { return start_point_; }
+    [[nodiscard]] bool get_positioning() const { return positioning_; }
+    void set_positioning(bool tf) { positioning_ = tf; }
 
     void stack(key_tuple kt, base_node* layer_root, border_node* bn, int cmp_end, const bn_iterate_state& bi) {
         stackq_.emplace_back(kt, layer_root, bn, cmp_end, bi);
@@ -108,10 +118,14 @@ public:
         std::string_view end_key_sv, // from string_view
         scan_endpoint end_point,
         bool right_to_left,
-        bool early_abort
-    ) : ti_(ti), end_point_(end_point), right_to_left_(right_to_left), early_abort_(early_abort) {
+        bool early_abort,
+        std::string_view start_key_sv = {},
+        scan_endpoint start_point = scan_endpoint::INF
+    ) : ti_(ti), end_point_(end_point), right_to_left_(right_to_left), early_abort_(early_abort),
+        start_point_(start_point) {
         end_key_.reserve((end_key_sv.size() + 7) & ~7U); // round up
         end_key_.assign(end_key_sv);
+        start_key_.assign(start_key_sv);
     }
 };
 
@@ -357,10 +371,12 @@ iscan_open(tree_instance* ti, std::string_view l_key, scan_endpoint l_end, std::
            bool right_to_left, bool early_abort) {
     auto* ctx = new iscan_context( // NOLINT
         ti, right_to_left ? l_key : r_key, right_to_left ? l_end : r_end,
-        right_to_left, early_abort);
+        right_to_left, early_abort,
+        right_to_left ? r_key : l_key, right_to_left ? r_end : l_end);
     context = ctx;
 
-    auto rc = iscan_findfirst(ctx, right_to_left ? r_key : l_key, right_to_left ? r_end : l_end, out, bnv_cb);
+    auto rc = iscan_findfirst(ctx, ctx->get_start_key(), ctx->get_start_point(), out, bnv_cb);
+    if (rc == status::OK) { ctx->set_positioning(false); }
     if (rc != status::OK_SCAN_CONTINUE) { return rc; }
     return iscan_next(ctx, out, bnv_cb);
 }
@@ -387,6 +403,11 @@ next_layer:
 
     if (false) { // NOLINT(*-simplify-boolean-expr)
 retry_from_root:
+        if (ctx->get_positioning()) {
+            // No entry has been produced yet, so what iscan_findfirst decided about the start of the
+            // range (e.g. that the start key does not exist) may not hold any more. Search it again.
+            return status::OK_RETRY_FROM_ROOT;
+        }
         base_node* root = ctx->stack_top().layer_root;
         auto rv = root->get_stable_version();
         if (rv.get_deleted() && ctx->stack_size() == 1) { // L0
@@ -433,6 +454,7 @@ retry_from_root:
 from_neighbor:
     if (false) { // NOLINT(*-simplify-boolean-expr)
 retry_after_fb:
+        if (ctx->get_positioning()) { return status::OK_RETRY_FROM_ROOT; } // see retry_from_root
         // check index rewinding in this border is sufficient
         if (perm.get_cnk() == 0) { goto retry_from_root; } // NOLINT
         if (!right_to_left) {
@@ -596,6 +618,7 @@ retry_after_fb:
             ctx->stack_top().bn = bn;
             ctx->stack_top().key = {ks, kl};
             ctx->stack_top().bi.perm_rank = i+1;
+            ctx->set_positioning(false);
             return status::OK;
         }
     }
@@ -733,6 +756,14 @@ iscan_next(iscan_context* ctx, void*& value,
             return rc; // return value
         }
         if (rc == status::WARN_CONCURRENT_OPERATIONS || rc == status::WARN_ABORTED_BY_USER) {
+            return rc;
+        }
+        if (rc == status::OK_RETRY_FROM_ROOT) {
+            // concurrent modification before the first entry was produced: position the cursor again
+            rc = iscan_findfirst(ctx, ctx->get_start_key(), ctx->get_start_point(), value, bnv_cb);
+            if (rc == status::OK) { ctx->set_positioning(false); }
+            if (rc == status::OK_SCAN_CONTINUE) { continue; }
+            if (rc == status::OK_SCAN_END) { ctx->stack_clear(); }
             return rc;
         }
         if (rc == status::OK_SCAN_CONTINUE) { // TODO: stop exiting and re-entering iscan_findnext
